@@ -255,13 +255,12 @@ def to_meshio(mesh,
     cells = {mtype: t.T}
 
     if encode_cell_data:
-        if cell_data is None:
-            cell_data = {}
+        # do not write the encoded tags into the dictionary of the caller
+        cell_data = {} if cell_data is None else dict(cell_data)
         cell_data.update(mesh._encode_cell_data())
 
     if encode_point_data:
-        if point_data is None:
-            point_data = {}
+        point_data = {} if point_data is None else dict(point_data)
         point_data.update(mesh._encode_point_data())
 
     mio = meshio.Mesh(
